@@ -50,10 +50,18 @@ func (g *sgen) schema(d int, allowRef bool) O {
 		} else if g.Pct(15) {
 			s["additionalProperties"] = g.schema(d+1, true)
 		}
+		if g.Pct(15) {
+			delete(s, "type") // "type" is optional
+			g.Label("object:typeless")
+		}
 		return s
 	case 3:
 		if g.Pct(20) {
 			return O{"type": "object", "additionalProperties": true}
+		}
+		if g.Pct(15) {
+			g.Label("map:typeless")
+			return O{"additionalProperties": g.schema(d+1, true)}
 		}
 		return O{"type": "object", "additionalProperties": g.schema(d+1, true)}
 	case 4:
